@@ -613,9 +613,21 @@ func (w *World) ProveOverflow(s OvSite) OverflowOutcome {
 		a, b := c.Lin(x.X), c.Lin(x.Y)
 		switch x.Op {
 		case token.ADD:
-			return finish(inRange(a.Add(b), x.Type()), "exact sum in range")
+			out := finish(inRange(a.Add(b), x.Type()), "exact sum in range")
+			if pa, pb, ok := c.preImages(x.X, x.Y); ok && !out.Proved {
+				if m := finish(inRange(pa.Add(pb), x.Type()), modularHow+"sum of the operands before their same-width conversion to the unsigned type is in range, so the wrapped sum is that exact value"); m.Proved {
+					return m
+				}
+			}
+			return out
 		case token.SUB:
-			return finish(inRange(a.Sub(b), x.Type()), "exact difference in range")
+			out := finish(inRange(a.Sub(b), x.Type()), "exact difference in range")
+			if pa, pb, ok := c.preImages(x.X, x.Y); ok && !out.Proved {
+				if m := finish(inRange(pa.Sub(pb), x.Type()), modularHow+"difference of the operands before their same-width conversion to the unsigned type is in range, so the wrapped difference is that exact value"); m.Proved {
+					return m
+				}
+			}
+			return out
 		case token.QUO:
 			return finish(inRange(a.Neg(), x.Type()), "exact negation in range")
 		case token.MUL:
@@ -647,7 +659,13 @@ func (w *World) ProveOverflow(s OvSite) OverflowOutcome {
 		}
 	case *ssa.UnOp:
 		a := c.Lin(x.X)
-		return finish(inRange(a.Neg(), x.Type()), "exact negation in range")
+		out := finish(inRange(a.Neg(), x.Type()), "exact negation in range")
+		if pa, _, ok := c.preImages(x.X, nil); ok && !out.Proved {
+			if m := finish(inRange(pa.Neg(), x.Type()), modularHow+"negation of the operand before its same-width conversion to the unsigned type is in range, so the wrapped negation is that exact value"); m.Proved {
+				return m
+			}
+		}
+		return out
 	case *ssa.Convert:
 		if _, _, ok := isIntType(x.X.Type()); !ok {
 			res.Failed = "conversion from a floating-point value: range not decided"
@@ -674,6 +692,12 @@ func (w *World) ProveOverflow(s OvSite) OverflowOutcome {
 			if ok, how := w.ProveValueRange(s.In.Parent(), s.In, x.X, lo, hi); ok {
 				out.Proved, out.Failed, out.Witness = true, "", ""
 				out.How = "source value fits the destination type, " + how
+			}
+		}
+		if !out.Proved {
+			if n, ok := w.consumedExactly(x); ok {
+				out.Proved, out.Failed, out.Witness = true, "", ""
+				out.How = fmt.Sprintf("the possibly wrapped pattern is consumed only where it is exact: each of its %d uses is modular arithmetic proved exact on the pre-conversion operands, or sits where the source value is proved to fit", n)
 			}
 		}
 		return out
@@ -1143,3 +1167,89 @@ func (w *World) valueRange(fn *ssa.Function, at ssa.Instruction, v ssa.Value, lo
 	return true, fmt.Sprintf("proved %s on each of the %d return values of %s", rangeName(lo, hi), nret, p.FuncName(callee))
 }
 
+
+const modularHow = "modular arithmetic: the "
+
+// preImages: the operands of an unsigned add/sub/neg as the values they had
+// before a same-width signed→unsigned conversion (uint64(a) + uint64(b) is
+// a + b modulo 2^64, so when a + b lies in the unsigned range the wrapped
+// result IS a + b). ok only when at least one operand is such a conversion.
+func (c *Ctx) preImages(x, y ssa.Value) (lin.Form, lin.Form, bool) {
+	any := false
+	pre := func(v ssa.Value) lin.Form {
+		if v == nil {
+			return lin.K(0)
+		}
+		if cv, ok := v.(*ssa.Convert); ok {
+			db, ds, okD := isIntType(cv.Type())
+			sb, ss, okS := isIntType(cv.X.Type())
+			if okD && okS && db == sb && !ds && ss {
+				any = true
+				return c.Lin(cv.X)
+			}
+		}
+		return c.Lin(v)
+	}
+	a, b := pre(x), pre(y)
+	return a, b, any
+}
+
+// consumedExactly: every use of the same-width signed→unsigned conversion x is
+// (a) an unsigned add/sub/neg proved exact on the pre-conversion operands, or
+// (b) placed (for a φ: on the incoming edge) where the source value is proved
+// to lie in the destination range. The wrapped pattern is then never observed.
+func (w *World) consumedExactly(x *ssa.Convert) (int, bool) {
+	db, ds, okD := isIntType(x.Type())
+	sb, ss, okS := isIntType(x.X.Type())
+	if !okD || !okS || db != sb || ds || !ss || x.Referrers() == nil {
+		return 0, false
+	}
+	fi := w.Info(x.Parent())
+	lo, hi, _ := typeRange(x.Type())
+	fitsAt := func(c *Ctx) bool {
+		c.seedConsts()
+		f := c.Lin(x.X)
+		return c.Prove(lin.GE(f, lin.KB(lo))) && c.Prove(lin.LE(f, lin.KB(hi)))
+	}
+	n := 0
+	for _, r := range *x.Referrers() {
+		switch u := r.(type) {
+		case *ssa.DebugRef:
+			continue
+		case *ssa.BinOp:
+			if (u.Op == token.ADD || u.Op == token.SUB) && types.Identical(u.Type(), x.Type()) {
+				if o := w.ProveOverflow(OvSite{In: u}); o.Proved && strings.HasPrefix(o.How, modularHow) {
+					n++
+					continue
+				}
+			}
+		case *ssa.UnOp:
+			if u.Op == token.SUB {
+				if o := w.ProveOverflow(OvSite{In: u}); o.Proved && strings.HasPrefix(o.How, modularHow) {
+					n++
+					continue
+				}
+			}
+		case *ssa.Phi:
+			ok := true
+			for i, e := range u.Edges {
+				if e != ssa.Value(x) {
+					continue
+				}
+				if !fitsAt(fi.CtxEdge(u.Block().Preds[i], u.Block())) {
+					ok = false
+				}
+			}
+			if ok {
+				n++
+				continue
+			}
+			return 0, false
+		}
+		if !fitsAt(fi.ctxBefore(r)) {
+			return 0, false
+		}
+		n++
+	}
+	return n, n > 0
+}
